@@ -628,7 +628,8 @@ class _Builder:
                 if b >= a:
                     b += 1
                 plan.append((a, b, self.draw(st.sampled_from(
-                    ["any", "any", "recv", "fresh", "forward", "holderdep"]))))
+                    ["any", "any", "any", "recv", "recv", "fresh", "fresh",
+                     "forward", "holderdep"]))))
         # a few more random messages on top of a pattern
         room = self.cfg.max_messages - len(plan)
         if pattern != "random" and room > 0 and self.boolean(1, 3):
@@ -638,7 +639,8 @@ class _Builder:
                 if b >= a:
                     b += 1
                 plan.append((a, b, self.draw(st.sampled_from(
-                    ["any", "recv", "forward", "holderdep"]))))
+                    ["any", "any", "recv", "recv", "fresh", "forward",
+                     "holderdep"]))))
         return plan[:self.cfg.max_messages]
 
     # -- tags
@@ -806,7 +808,7 @@ class _Builder:
         pats = list(cfg.patterns or PATTERNS)
         weights = {"none": 1, "random": 5, "ring": 3, "ringdep": 2,
                    "star_out": 2, "star_in": 2, "star_both": 2, "chain": 3,
-                   "double": 3, "pingpong": 3, "forward": 3, "exchange2": 2}
+                   "double": 3, "pingpong": 3, "forward": 2, "exchange2": 2}
         pats.sort(key=lambda p: (p == "none", p != "pingpong"))
         pattern = "none" if n == 1 else progen._w(
             d, [(weights[p], p) for p in pats])
